@@ -451,27 +451,27 @@ class TDMProgram(Program):
         Args:
             shots (int): the number of times the circuit should be repeated
         """
-        _locked = self.locked
-        if self.locked:
-            self.locked = False
-
-        if self.unrolled_circuit is not None:
-            if self._unrolled_shots == shots:
-                self.circuit = self.unrolled_circuit
-                return
-            self.roll()
-
-        # store the number of shots in the unrolled circuit
-        self._unrolled_shots = shots
-
-        if self.space_unrolled_circuit is not None:
+        if self.unrolled_circuit is None and self.space_unrolled_circuit is not None:
             raise ValueError(
                 "Program is space-unrolled and cannot be unrolled. Must be rolled (by calling the"
                 "'roll()' method) before unrolling."
             )
 
-        self._unroll_program(shots, space=False)
-        self.locked = _locked
+        _locked = self.locked
+        self.locked = False
+        try:
+            if self.unrolled_circuit is not None:
+                if self._unrolled_shots == shots:
+                    self.circuit = self.unrolled_circuit
+                    return
+                self.roll()
+
+            # store the number of shots in the unrolled circuit
+            self._unrolled_shots = shots
+
+            self._unroll_program(shots, space=False)
+        finally:
+            self.locked = _locked
 
     def space_unroll(self, shots=1):
         """Construct the space-unrolled program and set it to ``self.circuit``.
@@ -484,32 +484,26 @@ class TDMProgram(Program):
             shots (int): the number of times the circuit should be repeated
         """
         _locked = self.locked
-        if self.locked:
-            self.locked = False
+        self.locked = False
+        try:
+            if self.space_unrolled_circuit is not None and self._unrolled_shots == shots:
+                self.circuit = self.space_unrolled_circuit
+                return
+            self.roll()
 
-        if self.space_unrolled_circuit is not None and self._unrolled_shots == shots:
-            self.circuit = self.space_unrolled_circuit
-            return
-        self.roll()
+            # store the number of shots in the unrolled circuit
+            self._unrolled_shots = shots
 
-        # store the number of shots in the unrolled circuit
-        self._unrolled_shots = shots
+            vac_modes = self.concurr_modes - 1
+            self._num_added_subsystems = self.timebins - self.init_num_subsystems + vac_modes
+            if self._num_added_subsystems > 0:
+                self._add_subsystems(self._num_added_subsystems)
 
-        vac_modes = self.concurr_modes - 1
-        self._num_added_subsystems = self.timebins - self.init_num_subsystems + vac_modes
-        if self._num_added_subsystems > 0:
-            self._add_subsystems(self._num_added_subsystems)
+                self.init_num_subsystems += self._num_added_subsystems
 
-            self.init_num_subsystems += self._num_added_subsystems
-
-        if self.unrolled_circuit is not None:
-            raise ValueError(
-                "Program is unrolled and cannot be space-unrolled. Must be rolled (by calling the"
-                "`roll()` method) before space-unrolling."
-            )
-
-        self._unroll_program(shots, space=True)
-        self.locked = _locked
+            self._unroll_program(shots, space=True)
+        finally:
+            self.locked = _locked
 
     def _unroll_program(self, shots, space):
         """Construct the unrolled program either using space-unrolling or with register shift."""
